@@ -72,7 +72,7 @@ def sensornetCut (xraw : List Rat) (addInternal : Rat) (fiberLength : Option Rat
     else ⟨iStart, iEnd, (idx.drop iStart).take (iEnd - iStart)⟩
   else
     let left := i0 - iStart
-    let right := iEnd - i1
+    let right := min iEnd (n - 1) - i1     -- the flipped reverse channel is read from one row further: that row has to exist
     let sh := min left right
     let s := i0 - sh
     let e := i0 + nInd + sh
